@@ -100,7 +100,7 @@ def codec_alternation(draw, tier: str):
     s, name, vals = draw(codec_case(tier, 2, S.ValCfg(int_floats=True, pad_blocks=False, allow_long=False, magic_lengths=False)))
     v = draw(variant_of(s))
     vvals = draw(st.lists(S.struct_value(v, name, S.ValCfg(int_floats=True, pad_blocks=False, allow_long=False, magic_lengths=False)), min_size=1, max_size=2))
-    return [(s, name, vals[:2]), (v, name, vvals)], draw(st.sampled_from([24, 40]))
+    return [(s, name, vals[:2]), (v, name, vvals)], draw(st.sampled_from([16, 32]))
 
 
 def pad_to_block(s: M.Schema, name: str, v: Dict[str, Any], block: int, delta: Any):
